@@ -15,6 +15,17 @@ var propTable = map[string]*PropSpec{}
 
 func reg(p *PropSpec) { propTable[p.ID] = p }
 
+const markNote = "message-boundary harness: 3 senders x 2-3 messages and the spawner, one deterministic base schedule plus a bounded number of preemptions between sends / before the spawn / at the start of message handlings (no preemption in the middle of a handler or of Send)"
+
+// l2mark: the process unit with more senders and messages under a deterministic base schedule (ZZDETSCHED) with up
+// to p preemptions at message boundaries (ZZMARKONLY: between two sends of a sender, before the spawn, at the start
+// of every message handling).
+func l2mark(prop, t, m, crash, p int, witnesses ...string) HarnessSpec {
+	return HarnessSpec{Name: fmt.Sprintf("process-threads-at-message-boundaries(prop %d, %d senders x %d)", prop, t, m), Pkg: "actor", Func: "ZZ_L2", Preempt: p,
+		Params:    pm("prop", prop, "T", t, "M", m, "crash", crash, "ZZMARKONLY", 1, "ZZDETSCHED", 1),
+		Witnesses: append([]string{"senders-interleaved"}, witnesses...), Deadline: 40 * time.Minute, TrustRace: prop == 2}
+}
+
 func pm(kv ...interface{}) map[string]int {
 	m := map[string]int{}
 	for i := 0; i+1 < len(kv); i += 2 {
@@ -89,6 +100,7 @@ func init() {
 				if lp.prop == 5 {
 					hs = append(hs, HarnessSpec{Name: "crash-and-restart-under-concurrent-senders", Pkg: "actor", Func: "ZZ_L2", Preempt: 2,
 						Params: pm("prop", 5, "T", 2, "M", 2, "crash", 1), Witnesses: []string{"restart"}, Deadline: 40 * time.Minute})
+					hs = append(hs, l2mark(5, 3, 3, 1, tierSel(tier, 3, 5), "restart"))
 				}
 				if lp.prop == 6 {
 					hs = append(hs, HarnessSpec{Name: "budget-exhausted-by-a-parent-with-children", Pkg: "actor", Func: "ZZ_C08", Preempt: 1,
@@ -97,6 +109,7 @@ func init() {
 				if lp.prop == 7 {
 					hs = append(hs, HarnessSpec{Name: "poison-caller-waits-among-concurrent-senders", Pkg: "actor", Func: "ZZ_L2", Preempt: 2,
 						Params: pm("prop", 7, "T", 2, "M", 2, "crash", 0), Witnesses: []string{"poison-accepted"}, Deadline: 40 * time.Minute})
+					hs = append(hs, l2mark(7, 3, 2, 0, tierSel(tier, 4, 6), "poison-accepted"))
 				}
 				if lp.prop == 4 {
 					hs = append(hs, HarnessSpec{Name: "messages-queued-while-shutting-down", Pkg: "actor", Func: "ZZ_C08", Preempt: 1,
@@ -105,11 +118,16 @@ func init() {
 				if lp.prop == 4 {
 					hs = append(hs, HarnessSpec{Name: "spawn-races-with-senders", Pkg: "actor", Func: "ZZ_L2", Preempt: 2,
 						Params: pm("prop", 4, "T", 2, "M", 2, "crash", 0), Witnesses: []string{"send-before-registration", "partially-accepted"}, Deadline: 30 * time.Minute})
+					hs = append(hs, l2mark(4, 3, 3, 0, tierSel(tier, 4, 6), "send-before-registration", "partially-accepted"))
 				}
 				return hs
 			},
 			Bounds: func(tier string) string {
-				return fmt.Sprintf("histories of <= %d operations (send / deliver batch / Poison / Stop) plus final drain, arbitrary batch splits, <= 2 panics (symbolic crash flag per message; lifecycle-handler panics in the second harness), MaxRestarts 0..2, middleware chain 0..%d", tierSel(tier, 4, 5), lp.mw)
+				mn := ""
+				if lp.prop == 4 || lp.prop == 5 || lp.prop == 7 {
+					mn = "; " + markNote
+				}
+				return fmt.Sprintf("histories of <= %d operations (send / deliver batch / Poison / Stop) plus final drain, arbitrary batch splits, <= 2 panics (symbolic crash flag per message; lifecycle-handler panics in the second harness), MaxRestarts 0..2, middleware chain 0..%d", tierSel(tier, 4, 5), lp.mw) + mn
 			},
 			Outside:     []string{"longer histories / more panics", "real Inbox scheduling for the history harnesses (C05 adds a threaded harness: spawner + 2 senders x 2 messages on the real Inbox, one symbolic crash, preemption bound 2; C01-C03 cover the inbox itself)", "children (C08)"},
 			Assumptions: append([]string{"L1 process unit: real process/Registry/Engine.send paths on a bare engine; the inbox is a fake that mirrors Inbox.Start/Stop and lets the harness choose every batch split; event stream is a synchronous recording sink"}, commonAssumptions...),
@@ -139,13 +157,13 @@ func init() {
 	reg(&PropSpec{
 		ID: "C18",
 		Harnesses: func(tier string) []HarnessSpec {
-			return []HarnessSpec{{Name: "snapshots", Pkg: "cluster", Func: "ZZ_C18_Snapshots", Params: pm("U", tierSel(tier, 3, 4), "N", tierSel(tier, 3, 4), "MOVE", 1, "ROT", tierSel(tier, 1, 0)),
+			return []HarnessSpec{{Name: "snapshots", Pkg: "cluster", Func: "ZZ_C18_Snapshots", Params: pm("U", tierSel(tier, 3, 4), "N", 3, "MOVE", 1, "ROT", 1),
 				Witnesses: []string{"duplicate-entry", "leave", "member-listed-under-another-host"}, Deadline: 30 * time.Minute, ReplayAttempts: 24},
-				{Name: "snapshots-under-every-rotation-of-map-order", Pkg: "cluster", Func: "ZZ_C18_Snapshots", Params: pm("U", 4, "N", tierSel(tier, 2, 3), "MOVE", 1, "ROT", 1),
+				{Name: "snapshots-under-every-rotation-of-map-order", Pkg: "cluster", Func: "ZZ_C18_Snapshots", Params: pm("U", tierSel(tier, 4, 5), "N", 2, "MOVE", 1, "ROT", 1),
 					Witnesses: []string{"leave"}, Deadline: 60 * time.Minute, ReplayAttempts: 24}}
 		},
 		Bounds: func(tier string) string {
-			return fmt.Sprintf("sequences of %d snapshots over a universe of %d members with fixed kind sets; membership of each member in each snapshot and a duplicate entry are symbolic booleans; every snapshot contains the observing node", tierSel(tier, 3, 4), tierSel(tier, 4, 5)-1)
+			return fmt.Sprintf("sequences of 3 snapshots over a universe of %d members, and of 2 snapshots over %d members, with fixed kind sets (one member without kinds, two sharing a kind); membership of each member in each snapshot, a change of host under the same ID and a duplicate entry are symbolic booleans; every snapshot contains the observing node; the last snapshot of each history is processed under every rotation of the map iteration order (4 snapshots over 4 members did not finish in 30 minutes and is not registered)", tierSel(tier, 3, 4), tierSel(tier, 4, 5))
 		},
 		Outside:     []string{"members that change their kinds between snapshots while keeping their ID (a change of host under the same ID is included: symbolic per entry)", "the Request/Result plumbing around Members()/HasKind() (the agent is sent the same getMembers/getKinds messages and its answers are checked, next to its state)", "longer sequences / larger universes", "map iteration order: insertion order, and for the last snapshot of a history every rotation of it (the orders Go produces for a small map); other permutations are not explored"},
 		Assumptions: seqAssume("Agent built by NewAgent on a Cluster value whose engine is a bare engine with a synchronous event sink; snapshots are delivered by calling Agent.Receive"),
@@ -153,11 +171,16 @@ func init() {
 	reg(&PropSpec{
 		ID: "C20",
 		Harnesses: func(tier string) []HarnessSpec {
-			return []HarnessSpec{{Name: "provider-history", Pkg: "cluster", Func: "ZZ_C20_Provider", Params: pm("U", tierSel(tier, 3, 4), "N", tierSel(tier, 3, 4), "SHARE", 1),
+			hs := []HarnessSpec{{Name: "provider-history", Pkg: "cluster", Func: "ZZ_C20_Provider", Params: pm("U", tierSel(tier, 3, 4), "N", 3, "SHARE", 1),
 				Witnesses: []string{"unreachable-member", "unreachable-non-member", "two-members-on-the-reported-address"}, Deadline: 30 * time.Minute}}
+			if tier == "thorough" {
+				hs = append(hs, HarnessSpec{Name: "provider-history-longer", Pkg: "cluster", Func: "ZZ_C20_Provider", Params: pm("U", 3, "N", 4, "SHARE", 1),
+					Witnesses: []string{"unreachable-member", "unreachable-non-member"}, Deadline: 40 * time.Minute})
+			}
+			return hs
 		},
 		Bounds: func(tier string) string {
-			return fmt.Sprintf("histories of %d messages (handshake from any peer / member list with symbolic contents / RemoteUnreachableEvent for any member address or an unknown address, delivered to the provider's event-stream child handler and forwarded by it) over a universe of %d members", tierSel(tier, 3, 4), tierSel(tier, 3, 4))
+			return fmt.Sprintf("histories of %d messages (handshake from any peer / member list with symbolic contents / RemoteUnreachableEvent for any member address or an unknown address, delivered to the provider's event-stream child handler and forwarded by it) over a universe of %d members%s", 3, tierSel(tier, 3, 4), map[string]string{"quick": "", "thorough": "; and histories of 4 messages over 3 members (4 messages over 4 members did not finish in 30 minutes and is not registered)"}[tier])
 		},
 		Outside:     []string{"the Started handler (zeroconf announce/browse, ping repeater); the event-stream child's handler is driven directly (its subscription to the event stream is not)", "which of two members sharing one address a report removes (either is accepted; exactly one must go)", "map iteration order: one order explored"},
 		Assumptions: seqAssume("SelfManaged built by its producer on a Cluster value with a bare engine, a recording agent process and a recording remote; its own member added as Started does; messages delivered by calling Receive"),
@@ -238,10 +261,12 @@ func init() {
 		Harnesses: func(tier string) []HarnessSpec {
 			return []HarnessSpec{inbox(1, tier, "several-batches"), l2(4, tierSel(tier, 2, 2), tierSel(tier, 2, 3), 0, "partially-accepted"), backlog,
 				// order and exactly-once of the messages that do not crash, around a crash and restart (shared with C05)
-				{Name: "order-around-a-restart", Pkg: "actor", Func: "ZZ_L2", Preempt: 2, Params: pm("prop", 5, "T", 2, "M", 2, "crash", 1), Witnesses: []string{"restart"}, Deadline: 40 * time.Minute}}
+				{Name: "order-around-a-restart", Pkg: "actor", Func: "ZZ_L2", Preempt: 2, Params: pm("prop", 5, "T", 2, "M", 2, "crash", 1), Witnesses: []string{"restart"}, Deadline: 40 * time.Minute},
+				l2mark(4, 3, 3, 0, tierSel(tier, 4, 6), "send-before-registration", "partially-accepted"),
+				l2mark(5, 3, 3, 1, tierSel(tier, 3, 5), "restart")}
 		},
 		Bounds: func(tier string) string {
-			return fmt.Sprintf("inbox unit: %d sender goroutines x 2 messages with symbolic payloads, initial ring size 1..3 (growth and wrap occur; 3 is not a power of two), Start before or racing with the senders, preemption bound 2; process unit: spawner + 2 senders on a real process/Inbox of size 1", tierSel(tier, 2, 3))
+			return fmt.Sprintf("inbox unit: %d sender goroutines x 2 messages with symbolic payloads, initial ring size 1..3 (growth and wrap occur; 3 is not a power of two), Start before or racing with the senders, preemption bound 2; process unit: spawner + 2 senders on a real process/Inbox of size 1; "+markNote, tierSel(tier, 2, 3))
 		},
 		Outside:     []string{"more goroutines / messages / preemptions", "ring-buffer arithmetic beyond these sizes (C14 covers it inductively)", "backlogs above messageBatchSize only sequentially: 4097 or 4100 messages queued before Start (or behind a started worker), initial ring size 1, 1000 or 4096, one schedule"},
 		Assumptions: thrAssume("inbox unit: real Inbox, RingBuffer and goscheduler with a recording Processer"),
@@ -249,12 +274,12 @@ func init() {
 	reg(&PropSpec{
 		ID: "C02",
 		Harnesses: func(tier string) []HarnessSpec {
-			return []HarnessSpec{inbox(2, tier), l2(2, 2, 2, 1, "restart", "restart-during-spawn"),
+			return []HarnessSpec{inbox(2, tier), l2(2, 2, 2, 1, "restart", "restart-during-spawn"), l2mark(2, 3, 2, 1, tierSel(tier, 4, 6), "restart", "restart-during-spawn"),
 				{Name: "child-busy-when-its-parent-shuts-down", Pkg: "actor", Func: "ZZ_C08", Preempt: 1, Params: pm("D", 1, "F", 2, "mode", 3),
 					Witnesses: []string{"child-busy-when-parent-stops"}, Deadline: 40 * time.Minute, ReplayAttempts: 8, TrustRace: true}}
 		},
 		Bounds: func(tier string) string {
-			return fmt.Sprintf("inbox unit: %d senders x 2 messages, Start racing, preemption bound 2, receiver yields inside every Invoke; process unit: spawner (Initialized/Started on its goroutine) + 2 senders x 2 messages, one symbolic crash - a user message (restart on the worker goroutine) or the first incarnation's Started handler (restart on the spawning goroutine while senders already push) -, receiver yields twice inside every Receive; overlap = a second Receive/Invoke entered while one is active; happens-before: the receiver declares an unsynchronised write to its state at every entry and the executor's vector-clock race detector (edges: atomics, mutexes, go, channel operations) must find every pair of entries ordered, and no unordered plain/atomic conflict in the repository's own accesses", tierSel(tier, 2, 3))
+			return fmt.Sprintf("inbox unit: %d senders x 2 messages, Start racing, preemption bound 2, receiver yields inside every Invoke; process unit: spawner (Initialized/Started on its goroutine) + 2 senders x 2 messages, one symbolic crash - a user message (restart on the worker goroutine) or the first incarnation's Started handler (restart on the spawning goroutine while senders already push) -, receiver yields twice inside every Receive; overlap = a second Receive/Invoke entered while one is active; happens-before: the receiver declares an unsynchronised write to its state at every entry and the executor's vector-clock race detector (edges: atomics, mutexes, go, channel operations) must find every pair of entries ordered, and no unordered plain/atomic conflict in the repository's own accesses; "+markNote, tierSel(tier, 2, 3))
 		},
 		Outside:     []string{"Stop/Poison callers of the actor itself (a parent-initiated shutdown of a busy child is included: tree harness, preemption bound 1)", "more goroutines / preemptions", "a data race reported by the executor's detector cannot be confirmed by native replay and is trusted (the detector's edges are those of the sync/atomic models)"},
 		Assumptions: thrAssume("units as for C01"),
@@ -274,6 +299,7 @@ func init() {
 			return []HarnessSpec{
 				{Name: "spawn-stop-respawn", Pkg: "actor", Func: "ZZ_C10_Seq", Params: pm("K", tierSel(tier, 5, 6)), Witnesses: []string{"duplicate-spawn", "respawn-after-stop"}},
 				l2(10, tierSel(tier, 1, 2), 2, 0),
+				l2mark(10, 3, 2, 0, tierSel(tier, 4, 6), "send-before-registration"),
 				{Name: "id-respawned-while-owner-shuts-down", Pkg: "actor", Func: "ZZ_C08", Preempt: tierSel(tier, 1, 2), Params: pm("D", 1, "F", 2, "mode", 1),
 					Witnesses: []string{"root-id-respawned-during-shutdown"}, Deadline: 60 * time.Minute, ReplayAttempts: 8},
 				{Name: "id-respawned-from-the-owner's-Stopped-handler", Pkg: "actor", Func: "ZZ_C08", Preempt: 2, Params: pm("D", 1, "F", 2, "mode", 2),
@@ -281,7 +307,7 @@ func init() {
 			}
 		},
 		Bounds: func(tier string) string {
-			return fmt.Sprintf("sequential histories of %d operations spawn/send/stop/deliver on one id (operation symbolic); threaded: two concurrent SpawnProc of one id + %d sender(s) x 2 messages, preemption bound 2; a parent with 2 children is stopped/poisoned while another goroutine spawns the parent's id again (real inboxes, preemption bound %d): the id is only taken again once the previous owner's children have handled Stopped and are unregistered; a child poisoned by a third party asks its parent, from inside its Stopped handler, to spawn its id again (preemption bound 2): the replacement, once started, is registered and stays registered", tierSel(tier, 5, 6), tierSel(tier, 1, 2), tierSel(tier, 1, 2))
+			return fmt.Sprintf("sequential histories of %d operations spawn/send/stop/deliver on one id (operation symbolic); threaded: two concurrent SpawnProc of one id + %d sender(s) x 2 messages, preemption bound 2; a parent with 2 children is stopped/poisoned while another goroutine spawns the parent's id again (real inboxes, preemption bound %d): the id is only taken again once the previous owner's children have handled Stopped and are unregistered; a child poisoned by a third party asks its parent, from inside its Stopped handler, to spawn its id again (preemption bound 2): the replacement, once started, is registered and stays registered; "+markNote, tierSel(tier, 5, 6), tierSel(tier, 1, 2), tierSel(tier, 1, 2))
 		},
 		Outside:     []string{"SpawnChild (same Registry.add path)", "several ids (the registry map is keyed by id; ids do not interact)", "the window between an actor's unregistration and its own Stopped handler (a respawn accepted there is not flagged)"},
 		Assumptions: thrAssume("L1 (fake inbox) for the sequential histories, L2 (real Inbox) for the concurrent spawns"),
@@ -321,12 +347,21 @@ func init() {
 					Witnesses: []string{"child-died-during-its-start"}, Deadline: 60 * time.Minute, ReplayAttempts: 8},
 				{Name: "parent-restarted-then-stopped", Pkg: "actor", Func: "ZZ_C08", Preempt: 1, Params: pm("D", 1, "F", 2, "mode", 4),
 					Witnesses: []string{"parent-restarted-with-children", "app-context-cancelled-before-shutdown", "duplicate-spawn-of-a-live-child"}, Deadline: 60 * time.Minute, ReplayAttempts: 8},
+				// deeper and wider trees: a deterministic base schedule with up to P preemptions at message boundaries
+				{Name: "tree-depth-3-at-message-boundaries", Pkg: "actor", Func: "ZZ_C08", Preempt: tierSel(tier, 4, 8), Params: pm("D", 3, "F", 2, "mode", 0, "ZZMARKONLY", 1, "ZZDETSCHED", 1),
+					Witnesses: []string{"third-party-poisons-child-during-shutdown"}, Deadline: 30 * time.Minute, ReplayAttempts: 8},
+				{Name: "tree-fan-out-3-at-message-boundaries", Pkg: "actor", Func: "ZZ_C08", Preempt: tierSel(tier, 4, 8), Params: pm("D", 2, "F", 3, "mode", 0, "ZZMARKONLY", 1, "ZZDETSCHED", 1),
+					Witnesses: []string{"third-party-poisons-child-during-shutdown"}, Deadline: 30 * time.Minute, ReplayAttempts: 8},
+				{Name: "busy-grandchildren-at-message-boundaries", Pkg: "actor", Func: "ZZ_C08", Preempt: tierSel(tier, 4, 8), Params: pm("D", 2, "F", 2, "mode", 3, "ZZMARKONLY", 1, "ZZDETSCHED", 1),
+					Witnesses: []string{"child-busy-when-parent-stops"}, Deadline: 30 * time.Minute, ReplayAttempts: 8},
+				{Name: "restarted-parent-of-a-depth-2-tree-at-message-boundaries", Pkg: "actor", Func: "ZZ_C08", Preempt: tierSel(tier, 4, 8), Params: pm("D", 2, "F", 2, "mode", 4, "ZZMARKONLY", 1, "ZZDETSCHED", 1),
+					Witnesses: []string{"parent-restarted-with-children"}, Deadline: 30 * time.Minute, ReplayAttempts: 8},
 			}
 		},
 		Bounds: func(tier string) string {
-			return fmt.Sprintf("tree of depth 1 and fan-out 2 with real inboxes; phase 1: optionally one child is poisoned by a third party and has stopped, then Children() is probed; phase 2: the root is stopped or poisoned, optionally while a third party poisons one child concurrently, or while one child panics (once) in its Stopped handler; preemption bound %d. Second harness: a third party poisons a child, which asks the root for a replacement under the same name and id from inside its Stopped handler (the root may handle the request while the old incarnation is still finishing); afterwards Children() lists the live replacement and a shutdown of the root takes it down; preemption bound 2. Third harness: the root is spawned WithContext(app context), may panic once on a user message and be restarted before Children() is probed, and the app context may be cancelled before the root is stopped or poisoned; preemption bound 1. Fourth harness: the root also spawns a child that panics in Started with no restart budget (it terminates during its own start): Children() lists only the live children, shutdown completes", tierSel(tier, 1, 2))
+			return fmt.Sprintf("trees of depth 3 x fan-out 2 and depth 2 x fan-out 3 (15 and 13 actors) under a deterministic base schedule with up to "+fmt.Sprint(tierSel(tier, 4, 8))+" preemptions at message boundaries (the start of every actor message handling); tree of depth 1 and fan-out 2 with real inboxes at synchronisation granularity; phase 1: optionally one child is poisoned by a third party and has stopped, then Children() is probed; phase 2: the root is stopped or poisoned, optionally while a third party poisons one child concurrently, or while one child panics (once) in its Stopped handler; preemption bound %d. Second harness: a third party poisons a child, which asks the root for a replacement under the same name and id from inside its Stopped handler (the root may handle the request while the old incarnation is still finishing); afterwards Children() lists the live replacement and a shutdown of the root takes it down; preemption bound 2. Third harness: the root is spawned WithContext(app context), may panic once on a user message and be restarted before Children() is probed, and the app context may be cancelled before the root is stopped or poisoned; preemption bound 1. Fourth harness: the root also spawns a child that panics in Started with no restart budget (it terminates during its own start): Children() lists only the live children, shutdown completes", tierSel(tier, 1, 2))
 		},
-		Outside:     []string{"children that crash on user messages during the shutdown", "deeper / wider trees (depth 2 did not finish within 10 minutes and is not registered)", "map iteration order of the children map: one order explored symbolically (native replays see Go's random order, hence several replay attempts)"},
+		Outside:     []string{"children that crash on user messages during the shutdown", "deeper / wider trees at synchronisation granularity (depth 2 did not finish within 10 minutes; depth 3 and fan-out 3 are explored at message-boundary granularity only: one deterministic base schedule plus bounded preemptions at the start of message handlings)", "map iteration order of the children map: one order explored symbolically (native replays see Go's random order, hence several replay attempts)"},
 		Assumptions: thrAssume("bare engine, real process/Inbox/Context/SafeMap; node receivers record Stopped and check their descendants at that instant; the stop context's cancellation instant is observed through the context model's OnCancel hook"),
 	})
 
